@@ -16,7 +16,7 @@ let parse_impl (line : string) : (string, string) Hashtbl.t =
     (List.filter (fun x -> x <> "") (String.split_on_char ' ' line));
   h
 
-let dead impl = impl = "PANIC" || impl = "TIMEOUT"
+let dead impl = impl = "PANIC" || impl = "TIMEOUT" || impl = "ABORT"
 
 (* token list from the implementation; None if some token is not a sub-slice *)
 let impl_toks (s : string) : (nat * nat) list option =
@@ -353,7 +353,8 @@ let clauses_close h impl =
     let word = unhex (get h "word") in
     let un x = if x = "e" then [] else unhex x in
     let cands = if get h "cands" = "-" then [] else List.map un (String.split_on_char '|' (get h "cands")) in
-    let nres = int_of_string (get h "n") in
+    (* n may be as large as usize::MAX: anything beyond OCaml's int range means "all" *)
+    let nres = match int_of_string_opt (get h "n") with Some k -> k | None -> max_int in
     let cutoff = Int32.float_of_bits (Int32.of_string (get h "cutoff")) in
     let ratios = if get ih "ratios" = "-" then [] else List.map (fun x -> Int32.of_string x) (String.split_on_char ',' (get ih "ratios")) in
     let res = if get ih "res" = "-" then [] else List.map un (String.split_on_char '|' (get ih "res")) in
